@@ -6,7 +6,21 @@ connection to the victim) is built on the virtual-time loop. A catalogue of proc
 wait on the peer is run on the victim; the HCI message boundaries of each procedure are
 ENUMERATED: the procedure is first run un-faulted to count the messages M that cross the HCI
 taps, then re-run on a fresh world for every k in 0..M and every cut kind, the cut being
-injected after the k-th message. After the cut the world is run to quiescence and judged.
+injected after the k-th message (k = 0: the procedure has started, its first packet has not
+crossed yet). After the cut the world is run to quiescence (45 virtual seconds, beyond the 30 s
+time-outs of the stack) and judged:
+
+  waiter_hangs/<site>/<link|transport>     the procedure's awaitable is still pending (site = innermost
+                                           bumble frame of its await chain)
+  task_left_pending/<site>/...             a task created inside the stack during the procedure is pending
+  cut_handler_raises/...                   the stack's own handler for the cut raised
+  tables/...                               Host / Device / Controller connection tables after a link cut
+                                           (closed connection gone; bystander connection still everywhere)
+  stale_state/<table>/...                  gatt_server.subscribers / indication_semaphores /
+                                           pending_confirmations (ATT and EATT bearers), smp sessions, L2CAP
+                                           channel tables and pending tables, ACL queue state, drain()
+  bystander_unusable/..., reconnect/...    the bystander connection still works; a new connection between
+                                           the same devices can be made and the same procedure succeeds
 """
 
 from __future__ import annotations
@@ -19,8 +33,8 @@ import secrets as _secrets
 
 from hypothesis import strategies as st
 
-from bumble import a2dp, att, avdtp, crypto, gatt_client, hci, l2cap, rfcomm, sdp
-from bumble.core import UUID, PhysicalTransport
+from bumble import a2dp, avdtp, crypto, gatt_client, hci, l2cap, rfcomm, sdp
+from bumble.core import UUID
 from bumble.gatt import Characteristic, Service
 from vlib import vloop, world
 from vlib.runner import HarnessError
@@ -33,7 +47,7 @@ RULE = (
     'then for every k in 0..M and cut kind in {local disconnect(), remote disconnect(), link loss (peer removed '
     'from the link + Disconnection Complete/CONNECTION_TIMEOUT), Host.on_transport_lost()} the procedure is re-run '
     'on a fresh world and the cut is injected after the k-th packet (both tiers: all k x all 4 kinds at zero '
-    'delay), plus Hypothesis-drawn (procedure, k, cut, order-preserving per-node HCI delay vectors; quick 150, '
+    'delay), plus Hypothesis-drawn (procedure, k, cut, order-preserving per-node HCI delay vectors; quick 500, '
     'thorough 48000). non-trivial = the procedure was still pending when the cut '
     'fired, or the cut is a transport loss; distinct by (procedure, k, cut kind, delays).'
 )
@@ -42,13 +56,17 @@ ASSUMPTIONS = [
     '"waits forever" = the awaitable is still pending when the virtual loop stalls or 400 virtual seconds after the '
     'cut (beyond every 30 s time-out of the stack); any exception, cancellation or result is an accepted ending',
     'link loss is modelled as the local controller timing the link out: the peer controller is removed from the '
-    'link and the local controller reports Disconnection Complete (CONNECTION_TIMEOUT) through the HCI tap, so the '
-    'event keeps its place in the order-preserving HCI stream; the remote side learns nothing and is not judged',
+    'link (link.remove_controller) and the local controller drops the connection and reports Disconnection '
+    'Complete (CONNECTION_TIMEOUT) to its host through the HCI tap, so the event keeps its place in the '
+    'order-preserving HCI stream; the remote side learns nothing and is not judged (before the re-connection the '
+    'peer controller is put back and times the link out the same way)',
+    'the cut is executed by a loop callback scheduled when the k-th packet is delivered, i.e. after that packet '
+    'has been processed by its sink and after callbacks that were already scheduled at that moment',
     'after a transport loss only the waiter and clean-up clauses are judged (local side); connection tables, the '
     'bystander and re-connection are judged for link cuts only',
     'empty per-handle containers (e.g. an empty channel dict) are not counted as stale state',
 ]
-SHRINK_KEYS = ('delays',)
+SHRINK_KEYS = ('d0', 'd1', 'd2')
 
 KINDS = ('local_disconnect', 'remote_disconnect', 'link_loss', 'transport_lost')
 H_WAIT = 400.0
@@ -521,11 +539,20 @@ def stale_state(node, conn, handle, classic) -> list:
 # one case
 # ---------------------------------------------------------------------------
 def norm_case(case) -> dict:
-    delays = [list(map(int, d or [])) for d in (case.get('delays') or [])]
-    while len(delays) < 3:
-        delays.append([])
-    return {'kind': 'cut', 'proc': case['proc'], 'k': (None if case.get('k') is None else int(case['k'])),
-            'cut': case.get('cut'), 'delays': delays[:3]}
+    """Plain-data case: procedure, boundary k, cut kind and one delay vector per node (d0 victim, d1 peer, d2 bystander)."""
+    legacy = list(case.get('delays') or [])
+    out = {'kind': 'cut', 'proc': case['proc'], 'k': (None if case.get('k') is None else int(case['k'])),
+           'cut': case.get('cut')}
+    for i in range(3):
+        d = case.get(f'd{i}')
+        if d is None and i < len(legacy):
+            d = legacy[i]
+        out[f'd{i}'] = [int(x) for x in (d or [])]
+    return out
+
+
+def case_delays(case) -> list:
+    return [case['d0'], case['d1'], case['d2']]
 
 
 def run_case(ctx, case, measure: dict | None = None) -> None:
@@ -572,9 +599,9 @@ def _run_case(ctx, case, loop, measure) -> None:
     handle_l, handle_r = conn_l.handle, conn_r.handle
     handle_bl, handle_b = env.conn_bl.handle, env.conn_b.handle
     peer_addr_l = conn_l.peer_address
-    if any(case['delays']):
+    if any(case_delays(case)):
         labels.add('delayed')
-        for n, d in zip(env.w.nodes, case['delays']):
+        for n, d in zip(env.w.nodes, case_delays(case)):
             if d:
                 n.tap._delays = {world.H2C: n.tap._cycle(d, 0), world.C2H: n.tap._cycle(d, 1)}
 
@@ -817,8 +844,8 @@ def _record(ctx, case, labels, S, proc, measure) -> None:
         if k == 0:
             labels.add('cut_before_first_message')
     nontrivial = cut is not None and (inside or cut == 'transport_lost')
-    ctx.case((case['proc'], k, cut, case['delays']), nontrivial, labels,
-             sample={'proc': case['proc'], 'what': proc.what, 'k': k, 'cut': cut, 'delays': case['delays'],
+    ctx.case((case['proc'], k, cut, case_delays(case)), nontrivial, labels,
+             sample={'proc': case['proc'], 'what': proc.what, 'k': k, 'cut': cut, 'delays_ms': case_delays(case),
                      'messages_at_cut': S.get('count_at_cut'), 'procedure_pending_at_cut': S.get('pending_at_cut')})
 
 
@@ -862,10 +889,10 @@ def run(ctx) -> None:
             'cut': st.sampled_from(KINDS),
             'delays': st.lists(st.lists(st.sampled_from([0, 0, 0, 1, 7, 50]), min_size=0, max_size=5), min_size=3, max_size=3)
             .filter(lambda d: any(any(x) for x in d)),
-        })
+        }).map(norm_case)
 
     strategy = st.sampled_from([p.name for p in PROCS]).flatmap(triple)
-    ctx.hyp('delayed', lambda c: run_case(ctx, c), strategy, max_examples=ctx.n(150, 48000))
+    ctx.hyp('delayed', lambda c: run_case(ctx, c), strategy, max_examples=ctx.n(500, 48000))
 
     for kind in KINDS:
         ctx.floor(f'cut:{kind}', 20)
